@@ -435,6 +435,9 @@ class ExcelInPython:
         else:
             raise TypeError('a number is required for rounding, not ' + type(number).__name__)
 
+        if int(num_digits) > 330:
+            # no double has digits that far behind the point: the number is at the requested precision already
+            return number if isinstance(number, int) else number + 0.0
         # a context of its own in every respect: precision, no inherited traps or flags of the host's default context
         context = DecimalContext(prec=400, traps=[InvalidOperation, DivisionByZero, Overflow], flags=[])
         result = decimal_number.quantize(context.scaleb(Decimal(1), -int(num_digits)), rounding=rounding, context=context)
